@@ -36,6 +36,11 @@ class Variant:
         """optional: JSON-able description of the inputs in a counter-model"""
         return None
 
+    def known_class(self, clause):
+        """-> (finding id, z3 predicate over the inputs) when known_findings.json
+        lists a finding for this function and clause, else None"""
+        return None
+
 
 class ObligationResult:
     __slots__ = ("name", "status", "backend", "rlimit", "time", "model", "path", "smt2", "extra")
@@ -75,6 +80,8 @@ def finish(variant, ex, r, pid, outcome):
     """post-process one proof result of the executor into a JSON-able record"""
     o = {"name": "%s/%s/%s" % (variant.name, pid, r["name"]), "status": r["status"], "backend": r["backend"],
          "time": r["time"]}
+    if r.get("known_id"):
+        o["known_id"] = r["known_id"]
     if r["status"] == "undecided" and r.get("smt2"):
         if try_cvc5(r["smt2"]) == "unsat":
             o["status"], o["backend"] = "proved", "cvc5"
@@ -83,12 +90,7 @@ def finish(variant, ex, r, pid, outcome):
         o["pc"] = r.get("pc")
         o["reason"] = r.get("reason")
         o["outcome"] = outcome[0] if outcome[0] == "return" else repr(outcome[1])
-        m = r.get("z3model")
-        if m is not None:
-            try:
-                o["model"] = variant.witness(m, ex)
-            except Exception as e:   # witness extraction must never hide the failure
-                o["model"] = {"witness-error": repr(e)}
+        o["model"] = r.get("model")
     return o
 
 
@@ -100,6 +102,7 @@ def run_variant(repo, world, variant, deadline_s=None):
     ex.max_arity = variant.max_arity
     ex.loop_bound = variant.loop_bound
     world.verifying = variant.qualname
+    ex.witness_fn = lambda m: variant.witness(m, ex)
     res = {"variant": variant.name, "qualname": variant.qualname, "props": list(variant.prop_ids),
            "paths": 0, "aborted": {}, "unsupported": None, "obligations": [], "bounded": variant.bounded,
            "inlined": set(), "contracts_used": set(), "notes": set()}
@@ -117,7 +120,15 @@ def run_variant(repo, world, variant, deadline_s=None):
             npaths += 1
             pid = "p%d" % npaths
             for (n, g) in goals:
-                ex.oblige(n, g)
+                r = ex.prove(n, g)
+                kc = variant.known_class(n) if r["status"] == "refuted" else None
+                if kc is not None:
+                    # a listed finding: everything outside its witness class must still be proved
+                    kid, cls = kc
+                    r2 = ex.prove(n, z3.Or(g, cls))
+                    if r2["status"] == "proved":
+                        r["status"], r["known_id"] = "known", kid
+                ex.results.append(r)
             for r in ex.results:
                 res["obligations"].append(finish(variant, ex, r, pid, outcome))
             res["inlined"] |= ex.inlined
